@@ -92,3 +92,42 @@ package hashprefix
 //@   atcall Clear set cacheVer[f] = hsVer[f.hashes]
 //@   ensures new-hashes-then-an-empty-cache: err == nil ==> hsVer[f.hashes] == old(hsVer[f.hashes]) + 1 && cacheClears[f.resCache] == old(cacheClears[f.resCache]) + 1
 //@   ensures failure-leaves-hashes-and-cache: err != nil ==> cacheClears[f.resCache] == old(cacheClears[f.resCache])
+
+// ---------------------------------------------------------------------------
+// C11: hash-prefix queries.  A label of four characters is a prefix; a legacy
+// label of eight characters stands for its FIRST four; any other length or a
+// label that is not hexadecimal is refused.
+
+//@ import container github.com/AdguardTeam/golibs/container
+//@ pred labels(s string) = splitLen(s, ".", -1)
+//@ pred label(s string, j int) = splitPart(s, ".", -1, j)
+
+//@ func prefixesFromStr
+//@   property C11
+//@   modifies msHas, msSize, hexFails
+//@   ensures no-labels-no-prefixes: prefixesStr == "" ==> err == nil && len(hashPrefixes) == 0
+//@   ensures bad-length-is-refused: prefixesStr != "" && (exists j int :: 0 <= j && j < labels(prefixesStr) && len(label(prefixesStr, j)) != 4 && len(label(prefixesStr, j)) != 8) ==> err != nil
+//@   ensures bad-encoding-is-refused: hexFails > old(hexFails) ==> err != nil
+//@   loop 1 invariant -1 <= #i && #i < len(prefixStrs) && prefixSet != nil && fresh(prefixSet)
+//@   loop 1 invariant forall j int :: 0 <= j && j <= #i ==> (len(label(prefixesStr, j)) == 4 || len(label(prefixesStr, j)) == 8)
+//@   loop 1 invariant every-label-contributes-its-first-four-characters: forall j int :: 0 <= j && j <= #i ==> msHas[prefixSet][label(prefixesStr, j)[:4]]
+//@   loop 1 invariant nothing-else-is-asked-for: forall v string :: msHas[prefixSet][v] ==> (exists j int :: 0 <= j && j <= #i && v == label(prefixesStr, j)[:4])
+//@   loop 1 invariant hexFails == old(hexFails)
+//@   loop 2 invariant -1 <= #i && #i < len(prefixStrs) && len(hashPrefixes) == len(prefixStrs) && hexFails == old(hexFails) && fresh(hashPrefixes)
+
+// hashesFor: what Storage.Hashes answers (its completeness is the bounded
+// check of C11); a host that ends with none of the configured suffixes is not
+// a hash query.
+//@ ghost lastHashesOf *Storage
+//@ func (*Storage).Hashes
+//@   modifies lastHashesOf
+//@   ensures lastHashesOf == s
+//@ func (*Matcher).MatchByPrefix
+//@   property C11
+//@   requires m != nil && (forall k string :: has(m.storages, k) ==> m.storages[k] != nil)
+//@   modifies msHas, msSize, hexFails, lastHashesOf
+//@   ensures other-names-pass-through: !matched && err == nil ==> (forall k string :: has(m.storages, k) ==> !hasSuffix(host, k))
+//@   ensures answered-from-the-storage-of-its-suffix: matched ==> err == nil && (exists k string :: has(m.storages, k) && hasSuffix(host, k) && lastHashesOf == m.storages[k])
+//@   ensures a-malformed-prefix-is-an-error-not-a-miss: hexFails > old(hexFails) ==> err != nil
+//@   ensures err != nil ==> !matched
+//@   loop 1 invariant forall k string :: #seen[k] ==> !hasSuffix(host, k)
